@@ -66,7 +66,27 @@ func (t *cvBD) IsDefault() bool   { return len(t.vals) == 0 }
 func (t *cvCD) IsDefault() bool   { return len(t.vals) == 0 }
 func (t *cvBCD) IsDefault() bool  { return len(t.vals) == 0 }
 
-var cvVariantNames = []string{"plain", "IsBoolFlag=true", "IsBoolFlag=false", "Clear", "IsDefault", "IsBoolFlag=true+Clear", "IsBoolFlag=false+Clear", "IsBoolFlag=true+IsDefault", "IsBoolFlag=false+IsDefault", "Clear+IsDefault", "IsBoolFlag=true+Clear+IsDefault", "IsBoolFlag=false+Clear+IsDefault"}
+// cvMapVal is a user value type whose dynamic type is not hashable (a map with value receivers) and that has Clear
+type cvMapVal struct {
+	m   map[string]bool
+	log *[]string
+}
+
+type cvMap map[string]*cvMapVal // value receivers on a map type: cannot be used as a map key
+
+func (t cvMap) Set(s string) error {
+	v := t[""]
+	*v.log = append(*v.log, "Set("+s+")")
+	if s == "BAD" {
+		return errors.New("bad value")
+	}
+	v.m[s] = true
+	return nil
+}
+func (t cvMap) String() string { return fmt.Sprint(len(t[""].m)) }
+func (t cvMap) Clear()         { v := t[""]; *v.log = append(*v.log, "Clear"); v.m = map[string]bool{} }
+
+var cvVariantNames = []string{"plain", "IsBoolFlag=true", "IsBoolFlag=false", "Clear", "IsDefault", "IsBoolFlag=true+Clear", "IsBoolFlag=false+Clear", "IsBoolFlag=true+IsDefault", "IsBoolFlag=false+IsDefault", "Clear+IsDefault", "IsBoolFlag=true+Clear+IsDefault", "IsBoolFlag=false+Clear+IsDefault", "map-typed value with Clear (unhashable)"}
 
 func cvMake(variant int, log *[]string) (v flag.Value, isFlag, hasClear bool) {
 	b := cvBase{log: log, bad: "BAD"}
@@ -93,8 +113,10 @@ func cvMake(variant int, log *[]string) (v flag.Value, isFlag, hasClear bool) {
 		return &cvCD{b}, false, true
 	case 10:
 		return &cvBCD{b, true}, true, true
-	default:
+	case 11:
 		return &cvBCD{b, false}, false, true
+	default:
+		return cvMap{"": &cvMapVal{m: map[string]bool{}, log: log}}, false, true
 	}
 }
 
@@ -103,7 +125,7 @@ func init() {
 		ID:        "C19",
 		Title:     "Custom value types are driven through the documented protocol",
 		Technique: "runtime monitor: instrumented user value types log every Set/Clear call made by the real library; the call log is checked against the protocol (an online trace specification)",
-		Rule: "two custom options (-v/--vv and -w/--ww) and one custom argument X, each of one of 12 instrumented types (every subset of the optional methods IsBoolFlag, Clear, IsDefault; IsBoolFlag returning true or false), " +
+		Rule: "two custom options (-v/--vv and -w/--ww) and one custom argument X, each of one of 13 instrumented types (every subset of the optional methods IsBoolFlag, Clear, IsDefault; IsBoolFlag returning true or false; a map-typed value with value receivers, which is not hashable), " +
 			"declared through Var(VarOpt/VarArg) or the VarOpt/VarArg short forms, each with no / a valid / an invalid environment value (lists for types with Clear); Set fails on the token BAD; spec '[-v...] [-w...] [X...]' or '[OPTIONS] [X...]'; " +
 			"command lines: 0-3 occurrences of each option in every spelling the type admits (flag usage iff IsBoolFlag()==true), interleaved, 0-2 positionals. Oracle on the call log: at declaration the environment protocol " +
 			"(Clear, Set of each trimmed element, Clear again on the first error; single-valued: one Set per listed variable until one succeeds); at Run: for each variable Set is called with exactly the tokens bound to it, in order, preceded by exactly one Clear " +
@@ -133,9 +155,9 @@ type cvVar struct {
 func runC19(c *core.Ctx) {
 	r := c.R
 	cli.VerifSetStdErr(io.Discard)
-	vals := []string{"a", "b", "BAD", "c", "true", "x=y", "false", "0", "é"}
+	vals := []string{"a", "b", "BAD", "c", "true", "x=y", "false", "0", "é", "TRUE", "False", "T", "caf\xe9", "100%"}
 	mk := func(name string) *cvVar {
-		cv := &cvVar{name: name, variant: r.Intn(12), envState: r.Intn(3)}
+		cv := &cvVar{name: name, variant: r.Intn(13), envState: r.Intn(3)}
 		cv.val, cv.isFlag, cv.hasClear = cvMake(cv.variant, &cv.log)
 		switch cv.envState {
 		case 1:
